@@ -32,6 +32,12 @@ def run(res, replay=None):
             width = [w0, w0, w0] if cubic else [w0 * rng.choice([1.0, 0.5, 2.3]), w0 * rng.choice([1.0, 1.7, 0.31]), w0 * rng.choice([1.0, 3.1, 0.45])]
             anchor = [rng.choice([0.0, 1.0, -2.5]) for _ in range(3)]
             mcw = max(width) * rng.choice([0.26, 0.34, 0.51, 1.0, 0.12])
+            if i % 6 == 3:
+                # tipping shape (see the ringgap family below): the longest side has the narrowest cells
+                m = rng.choice([1, 2, 3, 4])
+                width = [w0, w0, w0]
+                width[rng.below(3)] = w0 * (1.0 + rng.choice([0.01, 0.003, 0.1]))
+                mcw = w0 / m * 1.0000001
             n = rng.range(2, 60)
             fam = rng.choice(["uniform", "uniform", "cluster", "sparse"])
             pts = []
@@ -60,9 +66,16 @@ def run(res, replay=None):
             width = [w0 * rng.choice([1.0, 0.6, 2.3, 0.77]), w0 * rng.choice([1.0, 1.7, 0.6, 0.31]), w0 * rng.choice([1.0, 3.1, 0.45, 0.8])]
             anchor = [rng.choice([0.0, 1.0, -2.5]) for _ in range(3)]
             mcw = max(width) * rng.choice([0.26, 0.34, 0.21, 0.12])
+            t, f_ = rng.below(3), rng.below(3)
+            if ng % 2 == 0:
+                # "tipping" shapes: almost cubic box, one side slightly longer so that it gets one cell more than the others and its cells are the
+                # narrowest although it is the longest side (the narrowest cell need not lie along the shortest side nor along the fewest cells)
+                m = rng.choice([2, 3, 4, 5])
+                width = [w0, w0, w0]
+                width[t] = w0 * (1.0 + rng.choice([0.01, 0.003, 0.1]))
+                mcw = w0 / m * 1.0000001
             cdim = [math.ceil(width[a] / mcw) for a in range(3)]
             cw = [width[a] / cdim[a] for a in range(3)]
-            t, f_ = rng.below(3), rng.below(3)
             if t == f_ or cdim[t] < 3 or cdim[f_] < 2 or cw[f_] < 1.1 * cw[t]:
                 continue
             st, sf = rng.choice([1, -1]), rng.choice([1, -1])
